@@ -48,6 +48,29 @@ def check(P, R):
     enc = P.func(f'{CH}:cookie_encode')
     g, rd = dec.cfg, dec.rd
 
+    # shape-independent first: the signature of a cookie is computed from this call's key and message alone - signing and verifying keep no state
+    # that another thread (another secret) can see half-updated
+    from .. import effects as EF
+    todo, fam = [dec, enc], []
+    while todo:
+        fx = todo.pop()
+        if fx in fam:
+            continue
+        fam.append(fx)
+        for c_ in walk_shallow(fx.node):
+            if isinstance(c_, ast.Call) and isinstance(c_.func, ast.Name):
+                r_ = P.resolve_name(fx.module, c_.func.id)
+                if r_ and r_[0] == 'func' and r_[1].module is fx.module and r_[1] not in fam:
+                    todo.append(r_[1])
+        todo += [x for x in P.all_funcs() if x.parent is fx and x not in fam]
+    sw = EF.shared_writes(P, fam)
+    for w in sw:
+        R.ob('C15.b', w['func'], w['node'], False, text=f'`{short(w["node"])}` on the signing path', detail=
+             f'signing / verifying keeps state in the shared location {w["target"]}: with two secrets in use, a reader can be handed the keyed state of the other '
+             f'secret while it is being replaced, and a cookie signed with that other secret is accepted and unpickled',
+             why='a cookie signed with another secret reads as absent, and its payload is never deserialised', key_extra='shared:' + w['target'] + w['kind'])
+    R.ob('C15.b', dec, None, not sw, text=f'signing and verifying keep no shared state ({len(fam)} functions on the path)', nontrivial=False)
+
     # ---- a: who may unpickle
     n_unp = 0
     for f in P.all_funcs():
